@@ -30,7 +30,8 @@ LEVEL_NOTE = ('trusted: float64 generator-based reference (self-tested against m
               'fitted GaussianKDE marginals (C03)')
 RULE = ('whole fits: d=2..5(6) x 6 designs x 3 types x truncations {1,2,d-1}; layer-A complete structures for d=3,4; probe rows '
         '= 7 per vine; poisons {nan,0,0.731,-0.9}; sampler lattice 24x24 (thorough 64x64) x start nodes x {fresh, re-fitted}; '
-        'non-trivial = every edge / row / sample row; distinct = distinct (vine, edge) / (vine,row)')
+        'distinct_nontrivial counts distinct (vine, edge), (vine, probe row) and (vine, start node, lattice point) comparisons; '
+        '`states` counts distinct vines')
 ASSUMPTIONS = ['h-function outputs equal to 0 or 1 are replaced by EPSILON / 1-EPSILON as documented', 'vine sampling clamps '
                'conditional quantiles to [EPSILON, 0.99] as documented']
 
